@@ -1,5 +1,11 @@
 use vstd::prelude::*;
 verus! {
+use vstd::std_specs::cmp::*;
+use core::cmp;
+pub assume_specification<T: core::cmp::Ord>[core::cmp::max::<T>](a: T, b: T) -> (r: T)
+    ensures T::obeys_cmp_spec() ==> r == (if b.cmp_spec(&a) == core::cmp::Ordering::Less { a } else { b });
+pub assume_specification<T: core::cmp::Ord>[core::cmp::min::<T>](a: T, b: T) -> (r: T)
+    ensures T::obeys_cmp_spec() ==> r == (if b.cmp_spec(&a) == core::cmp::Ordering::Less { b } else { a });
 // std definition of Result::or_else (trusted)
 pub assume_specification<T, E, F, O: FnOnce(E) -> Result<T, F>>[core::result::Result::<T, E>::or_else](r: Result<T, E>, op: O) -> (o: Result<T, F>)
     requires r is Err ==> op.requires((r->Err_0,)),
@@ -315,6 +321,14 @@ proof fn vac__must_go_on_chain_for(htlc: &HTLCOutputInCommitment, htlc_outbound:
     requires height <= 0x7fff_ffff, htlc.cltv_expiry <= 0x7fff_ffff,
     ensures false
 {}
+// ---- what is actually offered downstream (deep R15 slice of ChannelManager::process_forward_htlcs: the first three arguments of the queue_add_htlc call) ----
+#[derive(Clone, Copy)] pub struct FwdPaymentHash(pub [u8; 32]);
+fn values_offered_downstream(outgoing_amt_msat: &u64, payment_hash: &FwdPaymentHash, outgoing_cltv_value: &u32) -> (r: (u64, FwdPaymentHash, u32))
+    ensures
+    r.0 == *outgoing_amt_msat && r.1 == *payment_hash && r.2 == *outgoing_cltv_value,
+ { (*outgoing_amt_msat, *payment_hash, *outgoing_cltv_value) }
+
+
 // ---- what a completed forward earned (deep R15 slice of ChannelManager::claim_funds_internal) ----
 fn forward_fee_earned(htlc_claim_value_msat: Option<u64>, forwarded_htlc_value_msat: u64) -> (r: Option<u64>)
     requires
@@ -366,6 +380,23 @@ proof fn vac__holding_cell_add_is_kept(cltv_expiry: &u32, height: u32)
     requires height <= 0x7fff_ffff,
     ensures false
 {}
+// ---- ... and every successful exit of do_best_block_updated hands those timed-out HTLCs back to be failed upstream (three deep R15 slices: the second component of each Ok tuple) ----
+pub struct TimedOutHTLC { pub id: u64 }
+fn handed_back_with_channel_ready(timed_out_htlcs: Vec<TimedOutHTLC>) -> (r: Vec<TimedOutHTLC>)
+    ensures
+    r@ == timed_out_htlcs@,
+ { timed_out_htlcs }
+
+fn handed_back_with_splice_locked(timed_out_htlcs: Vec<TimedOutHTLC>) -> (r: Vec<TimedOutHTLC>)
+    ensures
+    r@ == timed_out_htlcs@,
+ { timed_out_htlcs }
+
+fn handed_back_otherwise(timed_out_htlcs: Vec<TimedOutHTLC>) -> (r: Vec<TimedOutHTLC>)
+    ensures
+    r@ == timed_out_htlcs@,
+ { timed_out_htlcs }
+
 // (P, C08) with the heights above, the forwarding race of lemma_forward_race is the one the monitor really runs:
 // downstream silent => on chain at outgoing + LATENCY; upstream claimable (preimage known) => on chain from incoming - CLTV_CLAIM_BUFFER
 pub proof fn lemma_on_chain_heights_close_the_race(incoming: int, outgoing: int, delta: int)
